@@ -709,15 +709,16 @@ impl<T: PPGEvaluatorStrategy> PPGEvaluator<T> {
         }
 
         let filter_if_renamed = |job_id: &str| -> bool {
-            if job_id.contains(":::") {
-                let last_time = multi_parts_to_jobs.get(job_id);
-                match last_time {
-                    Some(last_time) => last_time == job_id,
-                    None => true, //not present.
+            // keep, unless one of its outputs is now produced by a job of a different name
+            // (the map is keyed by the individual outputs, so look them up one by one)
+            for part in job_id.split(":::") {
+                if let Some(current_job_id) = multi_parts_to_jobs.get(part) {
+                    if current_job_id != job_id {
+                        return false;
+                    }
                 }
-            } else {
-                return true;
             }
+            true
         };
 
         let mut out = self.history.clone();
